@@ -51,6 +51,10 @@ def gen_project(rng):
   else:
     wl = simbuild.gen_workload(random.Random(1))
   wl["conf"]["custom"] = {}
+  # fast mode's "dependents that name only some members of a cycle" workload
+  # has no meaning with real bodies (a body that imports a module its plan was
+  # told nothing about gets an import error by construction)
+  wl.pop("thin_cycle_deps", None)
   by_id = {m["id"]: m for m in wl["modules"]}
   bodies = {}
   exports = {}
@@ -66,7 +70,7 @@ def gen_project(rng):
   # wire the imports of the generated graph into the bodies
   for a, b in wl["edges"]:
     ma, mb = by_id[a], by_id[b]
-    if ma["stub"] or mb["stub"] or not mb["name"]:
+    if ma["stub"] or mb["stub"] or not mb["name"] or mb.get("script"):
       # .pyi nodes of a real import graph are typeshed stubs, which a step
       # finds through typeshed, not through the imports map; the synthetic
       # typeshed does not contain them, so bodies do not import them
@@ -148,6 +152,63 @@ def run_real_step(fs, step, planned):
     fs.logging = False
     out["access"] = fs.take_log()
   return out
+
+
+_USE = None
+
+
+def handoff_check(fs, step, b_pyi, stats):
+  """C06 in build mode: every name this step's module reads from an upstream
+  module (`u_i_j = mod.name` / `mod.Class()` lines wired in by gen_project) has,
+  in this step's stub, the type declared by the stub the step actually read
+  (whatever the imports map pointed to at the instant the step started: a
+  final stub, or a first-pass stub inside an import cycle)."""
+  global _USE
+  import re
+  from sim import simpair, typenorm
+  if _USE is None:
+    _USE = re.compile(r"^(u_\d+_\d+) = ([A-Za-z_][\w.]*)\.(\w+)(\(\))?$", re.M)
+  if not b_pyi or not step.input or not fs.has(step.input):
+    return None
+  uses = _USE.findall(fs.get_text(step.input))
+  if not uses:
+    return None
+  try:
+    binfo = simpair.read_stub(b_pyi)
+  except SyntaxError:
+    return None
+  cache = {}
+  for var, mod, name, call in uses:
+    key = mod.replace(".", "/")
+    path = step.imports_items.get(key) or step.imports_items.get(key + "/__init__")
+    if not path or path == os.devnull or not fs.has(path):
+      continue
+    if path not in cache:
+      try:
+        cache[path] = simpair.read_stub(fs.get_text(path))
+      except (SyntaxError, UnicodeDecodeError):
+        cache[path] = None
+    ainfo = cache[path]
+    if ainfo is None:
+      continue
+    if call:
+      want = name if name in ainfo["classes"] else None
+    else:
+      want = ainfo["consts"].get(name)
+    got = binfo["consts"].get(var)
+    if want is None or got is None:
+      continue
+    stats["handoff_probes"] = stats.get("handoff_probes", 0) + 1
+    try:
+      ng, nw = typenorm.norm(got, (mod,)), typenorm.norm(want, (mod,))
+    except SyntaxError:
+      continue
+    if ng != nw:
+      return {"class": "TYPE_MISMATCH", "oracle": "build_mode_probe_type",
+              "what": "step %r: %s = %s.%s%s has type %s; the stub it read (%s) "
+                      "declares %s" % (step.output, var, mod, name, call,
+                                       typenorm.show(ng), path, typenorm.show(nw))}
+  return None
 
 
 def simulate_real(wl, planned, plan, steps, sched):
@@ -238,6 +299,9 @@ def simulate_real(wl, planned, plan, steps, sched):
         return ({"class": "SPURIOUS_ERROR", "oracle": "no_import_or_pyi_error",
                  "what": "step %r: %s" % (step.output, bad[0][1][:250]),
                  "step": step.output}, None, stats)
+      hv = handoff_check(fs, step, r["pyi"], stats)
+      if hv:
+        return hv, None, stats
       pending_out[eid] = r["pyi"]
       running[eid] = now + rr.choice([1.0, 2.0, 5.0])
       if len(running) >= 2:
@@ -341,6 +405,7 @@ def evaluate(trace):
     stats["first_pass_import_errors"] += st.get("first_pass_import_errors", 0)
     stats["kills"] += st["kills"]
     stats["torn_left"] += st["torn_left"]
+    stats["handoff_probes"] = stats.get("handoff_probes", 0) + st.get("handoff_probes", 0)
     log.add("build", [si, st["order"]])
     if st["overlap"]:
       stats["overlaps"] += 1
@@ -481,6 +546,7 @@ def new_agg(mode):
   return {"runs": 0, "real_steps": 0, "builds": 0, "accesses": 0, "overlaps": 0,
           "edges": 0, "skipped": 0, "nontrivial": 0, "sigs": set(),
           "first_pass_import_errors": 0, "kills": 0, "torn_left": 0, "crawled": 0,
+          "handoff_probes": 0,
           "violations": [], "samples": [], "digests": [], "timeouts": 0}
 
 
@@ -513,6 +579,7 @@ def run_chunk(args):
     for k in ("real_steps", "builds", "accesses", "overlaps", "edges", "skipped",
               "first_pass_import_errors", "kills", "torn_left", "crawled"):
       agg[k] += st[k]
+    agg["handoff_probes"] += st.get("handoff_probes", 0)
     agg["nontrivial"] += res["nontrivial"]
     agg["sigs"].update(res["sigs"])
     if res["violation"] and len(agg["violations"]) < 20:
@@ -533,7 +600,7 @@ def run_chunk(args):
 def merge_agg(dst, src):
   for k in ("runs", "real_steps", "builds", "accesses", "overlaps", "edges",
             "skipped", "nontrivial", "timeouts", "first_pass_import_errors",
-            "kills", "torn_left", "crawled"):
+            "kills", "torn_left", "crawled", "handoff_probes"):
     dst[k] += src[k]
   dst["sigs"] |= src["sigs"]
   dst["violations"].extend(src["violations"])
@@ -562,6 +629,7 @@ def coverage(agg, mode, tier):
       "projects_without_steps": agg["skipped"],
       "projects_whose_import_graph_came_from_the_real_importlab_crawl": agg["crawled"],
       "first_pass_steps_with_expected_import_errors": agg["first_pass_import_errors"],
+      "handoff_type_probes_compared": agg["handoff_probes"],
       "faults_fired": {"ninja_sigkill_then_restart": agg["kills"],
                        "torn_or_empty_stubs_left_behind": agg["torn_left"]},
       "runs_killed_by_wall_cap": agg["timeouts"],
